@@ -602,7 +602,19 @@ Definition write_container (c : xcontainer) : res velem :=
                                             | XEC n => E "ContainerRefEntry" [("containerRef", AS n)] [] end) (xk_entries c))]))
   end.
 
+(* the writer of a time type refuses (ValueError) a data encoding that is not numeric and a default calibrator that is not a
+   polynomial *)
+Definition time_writable (t : xptype) : bool :=
+  match xt_kind t with
+  | XKTime _ _ _ => match xt_enc t with
+                    | XNum ne => match xn_default ne with Some (XSpline _ _ _) => false | _ => true end
+                    | _ => false
+                    end
+  | _ => true
+  end.
+
 Definition write_doc (date : string) (d : xdoc) : res velem :=
+  if negb (forallb time_writable (xd_types d)) then Err EValue else
   cs <- mapM write_container (xd_containers d) ;;
   Ok (E "SpaceSystem" (optattr "name" (nonempty (xd_name d)))
         [E "Header" [("date", AS (match nonempty (xd_date d) with Some x => x | None => date end)); ("version", AS "1.0");
